@@ -26,6 +26,9 @@ def run(ck):
     if lib is None:
         return
     sk = skeleton.Skeleton(ck, lib)
+    # the meaning of the parser combinators the skeleton is built from, read from their own bodies
+    import primitives
+    primitives.check(ck, lib, sk, "C08-PR")
     for pr in sk.problems:
         if not pr.endswith("::tag"):
             ck.bad("C08", "skeleton:" + pr, pr)
